@@ -222,6 +222,20 @@ mod verif_kani_datetime {
         } }
     }
 
+    // fns: DateTime::years_since (whole years between two wall-clock readings; each value read at its own offset)
+    #[kani::proof]
+    fn vk_dt_years_since() {
+        let (ua, oa) = (any_ndt(), any_offset());
+        let (ub, ob) = (any_ndt(), any_offset());
+        let a = oa.from_utc_datetime(&ua); let b = ob.from_utc_datetime(&ub);
+        let (wa, wb) = (ua.overflowing_add_offset(oa), ub.overflowing_add_offset(ob));
+        let r = a.years_since(b);
+        let before = (wa.month(), wa.day(), wa.time()) < (wb.month(), wb.day(), wb.time());
+        let whole = wa.year() as i64 - wb.year() as i64 - if before { 1 } else { 0 };
+        kani::cover!(r == Some(0) && wa.year() != wb.year()); kani::cover!(r.is_none());
+        match r { Some(n) => assert!(whole >= 0 && n as i64 == whole, "whole years elapsed on the wall clock"), None => assert!(whole < 0, "None only when self reads earlier than base") }
+    }
+
     // ---- every zone at once: a TimeZone whose answers are arbitrary (over-approximates every implementation) -----------------------
     // One recorder static that starts with a magic word (Kani 0.68 aliases a `static mut` with any constant of equal bytes).
     struct ZRec { magic: u64, loc_calls: u8, loc_arg: Option<NaiveDateTime>, loc_res: MappedLocalTime<i32>, utc_calls: u8, utc_arg: Option<NaiveDateTime>, utc_res: i32 }
